@@ -1,15 +1,25 @@
 """C10 - interrupt delivery.
 
-(1) mask / one entry per request: try_interrupt is analysed by the abstract interpreter
-    with a symbolic CCR, the request queue summarised as pop effects and interrupt() as
-    an entry effect: a request is popped and entered only on traces whose path condition
-    implies CCR.I == 0, the popped number is the number entered, exactly once, and with
-    I set nothing is popped (the request stays pending);
+(1) inductive controller model: the InterruptController's fields other than the queue are
+    symbolic (typed), the queue is abstracted to (pending, pending >= 2) plus push / pop
+    effects; request_interrupt and try_interrupt (with everything they call, interrupt()
+    summarised as an entry effect) are interpreted over that state and the set of
+    reachable abstract controller states is computed from InterruptController::new by a
+    fixpoint.  In every reachable state: a request is popped and entered only when the
+    path condition implies CCR.I == 0; the number entered is the number popped, one pop
+    per boundary; with I set nothing is popped and no CPU state changes; request_interrupt
+    enqueues exactly the requested number once and removes nothing; no operation other
+    than push_back / pop_front / front / is_empty is applied to the queue (contains,
+    clear, retain ... lose, merge or reorder requests); NO STARVATION: there is no cycle
+    of boundaries with I clear and a request pending in which nothing is taken (a fast
+    path or flag that can leave a pending request untaken forever is a lost request);
 (2) boundary: interrupt() is called only from try_interrupt, try_interrupt only from
     run, where it precedes fetch and exec in the iteration (C13 effect order) and is not
     reachable from exec;
-(3) queue discipline: the request queue is touched only by push_back (request_interrupt)
-    and pop_front (try_interrupt) - FIFO, nothing is cleared, deduplicated or reordered;
+(3) every body that reads or writes a field of the controller is one that (1)
+    interpreted (helpers are followed, so refactoring into helper functions is fine);
+    a body outside that applies a non-FIFO operation to the queue is a finding, any other
+    outside access makes the rule undecided (checker error);
 (4) requesters pass constant vector numbers in 1..=63;
 (5) the entry sequence itself is C06's rule (Cpu::interrupt against the manual)."""
 import bv
@@ -24,19 +34,407 @@ def witness(c):
     return isacheck.group_witness(bv.M.describe_assign(bv.M.sat_one(c)))
 
 
-def run(ctx, res):
-    facts = ctx["facts"]
-    res.explanation = __doc__.split("\n\n", 1)[1].replace("\n", " ")
-    res.rule = "traces of try_interrupt: (pop or enter) => pc implies !CCR.I, entered == popped, once; who-may-call / who-may-touch tables over all bodies"
-    res.trusted = ["rustc MIR", "h8facts", "interp.py/models.py", "bdd.py"]
-    res.assumptions = ["VecDeque::push_back/pop_front are FIFO (library)", "Cpu::interrupt is summarised here (decided by C06)"]
-    res.not_decided = ["'the program computes the same result as without interrupts' (a property of executions and of handler code)",
-                       "exactly-once delivery over whole executions: it is the closure of (1) and (3), stated not mechanised"]
+IC = "cpu::interrupt_controller::InterruptController"
+# the property fixes no service order among pending requests, so any single-element enqueue / dequeue is acceptable;
+# operations that drop, merge or rewrite pending requests are not
+PUSH_OPS = {"push_back": 1, "push_front": 1, "insert": 2}      # method -> index of the value argument
+TAKE_OPS = ("pop_front", "pop_back", "remove", "swap_remove_back", "swap_remove_front")
+FIFO_OK = tuple(PUSH_OPS) + TAKE_OPS + ("new", "is_empty", "front", "len", "with_capacity", "clone", "iter", "contains", "get", "back")
+NONFIFO = ("clear", "retain", "truncate", "drain", "swap", "split_off", "append", "rotate_left", "rotate_right", "resize", "retain_mut", "make_contiguous", "sort",
+           "dedup", "iter_mut", "get_mut", "back_mut", "front_mut", "extend")
+QUERY = ("contains", "iter", "get", "back", "binary_search", "range")
+QROOT = ("h", "qabs")
+
+
+def controller_model(facts, res, k_try, k_int, k_req):
+    """Inductive model of the interrupt controller.  The controller's fields other than the queue are
+    symbolic (typed), the queue is abstracted to (non-empty, at least two) plus push/pop effects.
+    request_interrupt and try_interrupt are interpreted over that state; the set of reachable abstract
+    states is computed from InterruptController::new by a fixpoint, and in every reachable state:
+    mask, popped == entered, one pop per boundary, one push per request, no non-FIFO operation, and no
+    starvation (no cycle of boundaries with I clear and a pending request in which nothing is taken)."""
     bv.reset()
+    Mx = bv.M
+    visited_before = Interp.VISITED
+    Interp.VISITED = set()
     I = isamod.Isa(facts)
+    ict = facts.types[facts.type_by_path[IC]]
+    fields = ict["variants"][0]["fields"]
     ms, pats = models.standard_models()
     ip = Interp(facts, primitives={}, models=ms)
     ip.pattern_models = pats
+    qidx = [i for i, f in enumerate(fields) if "VecDeque" in (facts.types[f["ty"]].get("path") or "")]
+    if len(qidx) != 1:
+        res.errors.append("the interrupt controller does not have exactly one VecDeque field (%d)" % len(qidx))
+        return set()
+    qidx = qidx[0]
+    aux = []       # (field index, name, bits)
+    nbits = 0
+    for i, f in enumerate(fields):
+        if i == qidx:
+            continue
+        ii = ip.int_info(f["ty"])
+        if not ii:
+            res.errors.append("controller field %s has a type the model cannot enumerate" % f["n"])
+            return set()
+        bits = bv.data_bv("ic." + f["n"], ii[0])
+        aux.append((i, f["n"], bits))
+        nbits += ii[0]
+    if nbits > 10:
+        res.errors.append("controller state has %d auxiliary bits: too large for the explicit fixpoint" % nbits)
+        return set()
+    q_ne = bv.ctl_var("q_ne", 700)
+    q_ge2 = bv.ctl_var("q_ge2", 701)
+    ibit = bv.ccr_bv()[7]
+    state_nodes = [b for (_, _, bits) in aux for b in bits] + [q_ne, q_ge2]
+    state_ranks = [Mx.var[n] for n in state_nodes]
+
+    def qabs(st):
+        v = st.mem[QROOT]
+        return v.bits[0], v.bits[1]
+
+    def m_push(ip_, st, fr, t, args):
+        ne, ge2 = qabs(st)
+        st.mem[QROOT] = Int((1, ne))
+        v = args[PUSH_OPS[t["callee"]["path"].split("::")[-1]]]
+        st.add_eff(("push", v.bits if isinstance(v, Int) else None))
+        return UNIT
+
+    def m_len(ip_, st, fr, t, args):
+        ne, ge2 = qabs(st)
+        L = bv.seq_bv("qlen%d" % st.count("qlen"), 64)
+        c = Mx.AND(Mx.XOR(bv.is_zero(L), ne), Mx.NOT(Mx.XOR(bv.ult(bv.const(1, 64), L), ge2)))
+        return [(c, Int(L))]
+
+    def m_pop(ip_, st, fr, t, args):
+        ne, ge2 = qabs(st)
+        n = st.ctr.get("pops", 0)
+        v = bv.data_bv("req%d" % n, 8)
+        u = bv.ctl_var("more", 720 + st.count("more"))
+
+        def took(s, v=v, ge2=ge2, u=u):
+            s.ctr["pops"] = s.ctr.get("pops", 0) + 1
+            s.mem[QROOT] = Int((ge2, Mx.AND(ge2, u)))
+            s.add_eff(("pop", v))
+        return [(ne, Enum(models.SOME, [Int(v)]), took), (Mx.NOT(ne), Enum(models.NONE, []), lambda s: s.add_eff(("pop-empty",)))]
+
+    def m_front(ip_, st, fr, t, args):
+        ne, ge2 = qabs(st)
+        n = st.ctr.get("pops", 0)
+        v = bv.data_bv("req%d" % n, 8)
+        root = ("h", "front%d" % n)
+
+        def peek(s, v=v, root=root):
+            s.mem[root] = Int(v)
+        return [(ne, Enum(models.SOME, [Ref(root, ())]), peek), (Mx.NOT(ne), Enum(models.NONE, []))]
+
+    def m_is_empty(ip_, st, fr, t, args):
+        ne, ge2 = qabs(st)
+        return Int((Mx.NOT(ne),))
+
+    def m_new(ip_, st, fr, t, args):
+        st.mem[QROOT] = Int((0, 0))
+        return Opaque("queue")
+
+    def m_nonfifo(ip_, st, fr, t, args):
+        name = t["callee"]["path"].split("::")[-1]
+        st.add_eff(("nonfifo", name))
+        a = bv.ctl_var("any", 740 + st.count("any"))
+        b = bv.ctl_var("any", 760 + st.count("any2"))
+        st.mem[QROOT] = Int((a, Mx.AND(a, b)))
+        return ip_.opaque_of_type(t["dest"]["ty"], "queue-op")
+
+    def m_query(ip_, st, fr, t, args):
+        # a predicate on the queue contents: any answer is possible when the queue is not empty
+        name = t["callee"]["path"].split("::")[-1]
+        ne, ge2 = qabs(st)
+        rt = facts.types[t["dest"]["ty"]]
+        st.add_eff(("query", name))
+        if rt["k"] == "bool":
+            c = bv.ctl_var("ans", 780 + st.count("ans"))
+            return Int((Mx.AND(ne, c),))
+        # a read-only view of the contents: what is computed from it is not followed
+        st.tag("unknown-callee")
+        return ip_.opaque_of_type(t["dest"]["ty"], "queue-view")
+
+    def vq(name):
+        return lambda p, f: "VecDeque" in p and p.split("::")[-1] == name
+    for nm, fn in (("front", m_front), ("is_empty", m_is_empty), ("new", m_new), ("with_capacity", m_new), ("len", m_len)):
+        ip.pattern_models.append((vq(nm), fn))
+    for nm in PUSH_OPS:
+        ip.pattern_models.append((vq(nm), m_push))
+    for nm in TAKE_OPS:
+        ip.pattern_models.append((vq(nm), m_pop))
+    for nm in NONFIFO:
+        ip.pattern_models.append((vq(nm), m_nonfifo))
+    for nm in QUERY:
+        ip.pattern_models.append((vq(nm), m_query))
+
+    def p_enter(ip_, st, fr, t, args):
+        st.add_eff(("enter", args[1].bits if isinstance(args[1], Int) else None))
+        return [(None, Enum(models.OK, [UNIT])), (None, Enum(models.ERR, [Opaque("e")]), lambda s: s.tag("enter-failed"))]
+    ip.primitives[k_int] = p_enter
+    ic_i = I.fi["interrupt_controller"]
+
+    def fresh_mem():
+        cpu = I.fresh_cpu()
+        fs = list(cpu.fields)
+        icf = [None] * len(fields)
+        icf[qidx] = Opaque("queue")
+        for (i, n, bits) in aux:
+            icf[i] = Int(bits)
+        fs[ic_i] = Agg(icf)
+        return {isamod.CPU_ROOT: Agg(fs), QROOT: Int((q_ne, q_ge2))}
+
+    def collect(outs, what):
+        trs = []
+        for o in outs:
+            st = o.state
+            if any(t_ in st.tags for t_ in ("opaque-switch", "opaque-assert", "unknown-callee")):
+                res.errors.append("imprecise trace in %s: %r" % (what, st.tags,))
+            icv = st.mem[isamod.CPU_ROOT].fields[ic_i]
+            post = []
+            okp = isinstance(icv, Agg)
+            if okp:
+                for (i, n, bits) in aux:
+                    v = icv.fields[i]
+                    if not isinstance(v, Int):
+                        okp = False
+                        break
+                    post.extend(v.bits)
+            if not okp:
+                res.errors.append("controller state after %s is not a value the model can follow" % what)
+                continue
+            q = st.mem[QROOT]
+            post.extend(q.bits)
+            trs.append({"pc": st.pc, "post": post, "eff": st.eff, "o": o, "what": what})
+        return trs
+    # transitions
+    outs_try = ip.run_all(k_try, [Ref(isamod.CPU_ROOT, ())], fresh_mem())
+    tr_try = collect(outs_try, "try_interrupt")
+    nreq_bits = bv.data_bv("n", 8)
+    outs_req = ip.run_all(k_req, [Ref(isamod.CPU_ROOT, (ic_i,)), Int(nreq_bits)], fresh_mem())
+    tr_req = collect(outs_req, "request_interrupt")
+    # initial state: InterruptController::new
+    k_new = [k for k in facts.bodies if k.endswith("InterruptController::new")]
+    init_states = []
+    if len(k_new) == 1:
+        mem0 = {QROOT: Int((0, 0))}
+        outs_new = ip.run_all(k_new[0], [], mem0)
+        for o in outs_new:
+            v = o.value
+            if o.kind != "return" or not isinstance(v, Agg):
+                res.errors.append("InterruptController::new: unexpected outcome")
+                continue
+            a = {}
+            okk = True
+            for (i, n, bits) in aux:
+                fv = v.fields[i]
+                val = bv.to_int(fv.bits) if isinstance(fv, Int) else None
+                if val is None:
+                    okk = False
+                    break
+                for j, b in enumerate(bits):
+                    a[Mx.var[b]] = (val >> j) & 1
+            q = o.state.mem[QROOT]
+            qv = (bv.to_int((q.bits[0],)), bv.to_int((q.bits[1],)))
+            if not okk or None in qv:
+                res.errors.append("InterruptController::new does not produce a constant controller state")
+                continue
+            a[Mx.var[q_ne]] = qv[0]
+            a[Mx.var[q_ge2]] = qv[1]
+            init_states.append(tuple(a[r] for r in state_ranks))
+    else:
+        res.errors.append("InterruptController::new not found")
+    if ip.unknown_callees:
+        res.errors.append("unmodelled callees in the interrupt controller: %r" % ip.unknown_callees)
+
+    def successors(A, tr, extra=None):
+        """abstract states reachable from A through trace tr (optionally under an extra condition)"""
+        asg = dict(zip(state_ranks, A))
+        c = Mx.restrict(tr["pc"], asg)
+        if extra is not None:
+            c = Mx.AND(c, extra)
+        if c == 0:
+            return c, []
+        post = [Mx.restrict(b, asg) if b > 1 else b for b in tr["post"]]
+        out = []
+
+        def rec(i, cond, acc):
+            if cond == 0:
+                return
+            if i == len(post):
+                out.append(tuple(acc))
+                return
+            b = post[i]
+            rec(i + 1, Mx.AND(cond, Mx.NOT(b)), acc + [0])
+            rec(i + 1, Mx.AND(cond, b), acc + [1])
+        rec(0, c, [])
+        return c, out
+    # fixpoint
+    reach = set(init_states)
+    work = list(init_states)
+    while work:
+        A = work.pop()
+        for tr in tr_try + tr_req:
+            if tr["o"].kind != "return":
+                continue
+            c, succ = successors(A, tr)
+            for B in succ:
+                if B not in reach:
+                    reach.add(B)
+                    work.append(B)
+        if len(reach) > 4096:
+            res.errors.append("controller state space too large")
+            break
+    names = [n for (_, n, bits) in aux for _ in bits] + ["pending", "pending>=2"]
+
+    def show(A):
+        return ", ".join("%s=%d" % (n, v) for n, v in zip(names, A))
+
+    def wit(c, A):
+        w = witness(c) if c not in (0, 1) else {}
+        w = dict(w or {})
+        w["controller_state"] = show(A)
+        return w
+    res.inventory["controller_states_reachable"] = sorted(show(A) for A in reach)
+    res.inventory["controller_aux_fields"] = [n for (_, n, _) in aux]
+    res.floor("reachable controller states", len(reach), 3)
+    i_ne = len(state_ranks) - 2
+    masked_seen = False
+    entered_seen = False
+    starve_edges = {}
+    for A in sorted(reach):
+        # ---- delivery: try_interrupt
+        for tr in tr_try:
+            o = tr["o"]
+            c, succ = successors(A, tr)
+            if c == 0:
+                continue
+            res.evaluations += 1
+            st = o.state
+            if o.kind == "panic":
+                res.ob(False)
+                res.finding("try_interrupt|panic", "try_interrupt can panic (%s)" % o.info.get("kind"), wit(c, A))
+                continue
+            kinds = [e[0] for e in tr["eff"]]
+            nf = [e[1] for e in tr["eff"] if e[0] == "nonfifo"]
+            res.ob(not nf)
+            if nf:
+                res.finding("queue|methods|try_interrupt", "try_interrupt applies %r to the request queue (requests can be lost or reordered)" % nf, wit(c, A))
+            touched = [k for k in kinds if k in ("pop", "enter")]
+            bad = Mx.AND(c, ibit) if touched else 0
+            res.ob(bad == 0)
+            if bad != 0:
+                res.finding("mask|%s-while-I-set" % touched[0], "a request is %s while CCR.I is set" % ("popped" if touched[0] == "pop" else "entered"), wit(bad, A))
+            if not touched:
+                if Mx.AND(c, ibit) != 0:
+                    masked_seen = True
+                cpuv = st.mem[isamod.CPU_ROOT]
+                same = cpuv.fields[I.fi["ccr"]].bits == bv.ccr_bv() and cpuv.fields[I.fi["pc"]].bits == bv.data_bv("pc", 24) + (0,) * 8
+                okk = same and o.kind == "return" and isinstance(o.value, Enum) and o.value.variant == models.OK
+                res.ob(okk)
+                if not same:
+                    res.finding("mask|state-changed", "try_interrupt changes CPU state without accepting a request", wit(c, A))
+                # starvation edge: I clear, something pending, nothing taken
+                c0, succ0 = successors(A, tr, Mx.NOT(ibit))
+                if c0 != 0 and A[i_ne] == 1:
+                    for B in succ0:
+                        starve_edges.setdefault(A, set()).add(B)
+                continue
+            pops = [e for e in tr["eff"] if e[0] == "pop"]
+            enters = [e for e in tr["eff"] if e[0] == "enter"]
+            if "unknown-callee" in st.tags:
+                continue    # contents-dependent selection that the model does not follow (reported as undecided); the mask check above still applies
+            res.ob(len(pops) == 1)
+            if len(pops) != 1:
+                res.finding("queue|pops-per-boundary", "%d requests are popped at one instruction boundary" % len(pops), wit(c, A))
+            res.ob(len(enters) == len(pops))
+            if len(enters) != len(pops):
+                res.finding("delivery|count", "%d request(s) popped but %d entered (lost or duplicated)" % (len(pops), len(enters)), wit(c, A))
+            for pe, en in zip(pops, enters):
+                okk = en[1] is not None and tuple(en[1]) == tuple(pe[1])
+                res.ob(okk)
+                if not okk:
+                    res.finding("delivery|vector", "the vector entered is not the number that was requested (redirected)", wit(c, A))
+            if enters:
+                entered_seen = True
+        # ---- requests
+        for tr in tr_req:
+            o = tr["o"]
+            c, succ = successors(A, tr)
+            if c == 0:
+                continue
+            res.evaluations += 1
+            if o.kind == "panic":
+                res.ob(False)
+                res.finding("request|panic", "request_interrupt can panic (%s)" % o.info.get("kind"), wit(c, A))
+                continue
+            nf = [e[1] for e in tr["eff"] if e[0] == "nonfifo"]
+            res.ob(not nf)
+            if nf:
+                res.finding("queue|methods|request_interrupt", "request_interrupt applies %r to the request queue (requests can be lost or reordered)" % nf, wit(c, A))
+            pushes = [e for e in tr["eff"] if e[0] == "push"]
+            pops = [e for e in tr["eff"] if e[0] == "pop"]
+            qs = [e[1] for e in tr["eff"] if e[0] == "query"]
+            okk = len(pushes) == 1 and not pops
+            res.ob(okk)
+            if not okk:
+                key = "queue|methods|request_interrupt" if qs else "request|count"
+                res.finding(key, "request_interrupt enqueues the request %d times and removes %d request(s)%s: a request is lost or duplicated"
+                            % (len(pushes), len(pops), (" depending on %r" % qs) if qs else ""), wit(c, A))
+                continue
+            okv = pushes[0][1] is not None and tuple(pushes[0][1]) == tuple(nreq_bits)
+            res.ob(okv)
+            if not okv:
+                res.finding("request|vector", "the number enqueued is not the number requested", wit(c, A))
+    # starvation: a cycle of boundaries (I clear, a request pending) in which nothing is ever taken
+    color = {}
+
+    def dfs(u, path):
+        color[u] = 1
+        for v in sorted(starve_edges.get(u, ())):
+            if v[i_ne] != 1:
+                continue
+            if color.get(v) == 1:
+                return path + [u, v]
+            if color.get(v) is None:
+                r = dfs(v, path + [u])
+                if r:
+                    return r
+        color[u] = 2
+        return None
+    cyc = None
+    for A in sorted(starve_edges):
+        if color.get(A) is None:
+            cyc = dfs(A, [])
+            if cyc:
+                break
+    res.ob(cyc is None)
+    if cyc:
+        res.finding("delivery|starved", "a pending request is not taken although CCR.I is clear, and this repeats at every later boundary: controller states %s" % " -> ".join("(" + show(x) + ")" for x in cyc[-2:]),
+                    {"controller_state": show(cyc[-1]), "I": 0})
+    res.ob(masked_seen)
+    res.ob(entered_seen)
+    if not entered_seen:
+        res.finding("delivery|never", "no reachable controller state lets try_interrupt enter an interrupt")
+    res.distinct = len(reach)
+    if len(res.samples) < 5:
+        for tr in (tr_try + tr_req)[:5]:
+            res.samples.append({"transition": tr["what"], "effects": [e[0] for e in tr["eff"]], "outcome": tr["o"].kind})
+    mine = set(Interp.VISITED)
+    Interp.VISITED = visited_before | mine
+    return mine | {k_try, k_req, k_int}
+
+
+def run(ctx, res):
+    facts = ctx["facts"]
+    res.explanation = __doc__.split("\n\n", 1)[1].replace("\n", " ")
+    res.rule = "fixpoint over abstract controller states (aux fields x queue emptiness); per reachable state and trace: (pop or enter) => !CCR.I, entered == popped, one pop, one push per request, FIFO operations only, no starvation cycle; who-may-call tables"
+    res.trusted = ["rustc MIR", "h8facts", "interp.py/models.py", "bdd.py"]
+    res.assumptions = ["VecDeque::push_back/pop_front are FIFO (library)", "Cpu::interrupt is summarised here (decided by C06)"]
+    res.not_decided = ["'the program computes the same result as without interrupts' (a property of executions and of handler code)",
+                       "the order in which simultaneously pending requests of different priority are served (the emulator is FIFO; the property does not fix an order)"]
     k_try = facts.find("try_interrupt")
     k_int = [k for k in facts.find("interrupt") if "impl cpu::Cpu" in k]
     k_req = facts.find("request_interrupt")
@@ -44,80 +442,8 @@ def run(ctx, res):
         res.errors.append("anchors: try_interrupt %r interrupt %r request_interrupt %r" % (k_try, k_int, k_req))
         return
     k_try, k_int, k_req = k_try[0], k_int[0], k_req[0]
-
-    def m_pop(ip_, st, fr, t, args):
-        n = st.count("pop")
-        v = bv.data_bv("req%d" % n, 8)
-        i = st.count("ctl")
-        some = bv.ctl_var("nonempty", i)
-        st.add_eff(("pop", n))
-        return [(some, Enum(models.SOME, [Int(v)]), lambda s: s.add_eff(("popped", v))), (bv.M.NOT(some), Enum(models.NONE, []))]
-
-    def p_enter(ip_, st, fr, t, args):
-        st.add_eff(("enter", args[1].bits if isinstance(args[1], Int) else None))
-        return [(None, Enum(models.OK, [UNIT])), (None, Enum(models.ERR, [Opaque("e")]), lambda s: s.tag("enter-failed"))]
-    ip.pattern_models.append((lambda p, f: "VecDeque" in p and p.endswith("pop_front"), m_pop))
-    ip.primitives[k_int] = p_enter
-    cpu = I.fresh_cpu()
-    outs = ip.run_all(k_try, [Ref(isamod.CPU_ROOT, ())], {isamod.CPU_ROOT: cpu})
-    if ip.unknown_callees:
-        res.errors.append("unmodelled callees in try_interrupt: %r" % ip.unknown_callees)
+    analysed = controller_model(facts, res, k_try, k_int, k_req)
     Mx = bv.M
-    ibit = bv.ccr_bv()[7]
-    total = 0
-    masked_seen = 0
-    entered_seen = 0
-    for o in outs:
-        st = o.state
-        total = Mx.OR(total, st.pc)
-        if any(t in st.tags for t in ("opaque-switch", "opaque-assert", "unknown-callee")):
-            res.errors.append("imprecise trace in try_interrupt: %r" % (st.tags,))
-        if o.kind == "panic":
-            res.ob(False)
-            res.finding("try_interrupt|panic", "try_interrupt can panic (%s)" % o.info.get("kind"), witness(st.pc))
-            continue
-        kinds = [e[0] for e in st.eff]
-        res.evaluations += 1
-        touched = [k for k in kinds if k in ("pop", "enter")]
-        bad = Mx.AND(st.pc, ibit) if touched else 0
-        res.ob(bad == 0)
-        if bad != 0:
-            res.finding("mask|%s-while-I-set" % touched[0], "a request is %s while CCR.I is set" % ("popped" if touched[0] == "pop" else "entered"), witness(bad))
-        if not touched:
-            masked_seen = Mx.OR(masked_seen, st.pc)
-            # nothing happens: CCR and registers untouched, Ok
-            cpuv = st.mem[isamod.CPU_ROOT]
-            same = cpuv.fields[I.fi["ccr"]].bits == bv.ccr_bv() and cpuv.fields[I.fi["pc"]].bits == bv.data_bv("pc", 24) + (0,) * 8
-            res.ob(same and o.kind == "return" and isinstance(o.value, Enum) and o.value.variant == models.OK)
-            if not same:
-                res.finding("mask|state-changed", "try_interrupt changes CPU state without accepting a request", witness(st.pc))
-            continue
-        pops = kinds.count("pop")
-        popped = [e for e in st.eff if e[0] == "popped"]
-        enters = [e for e in st.eff if e[0] == "enter"]
-        res.ob(pops == 1)
-        if pops != 1:
-            res.finding("queue|pops-per-boundary", "%d requests are popped at one instruction boundary" % pops, witness(st.pc))
-        res.ob(len(enters) == len(popped))
-        if len(enters) != len(popped):
-            res.finding("delivery|count", "%d request(s) popped but %d entered (lost or duplicated)" % (len(popped), len(enters)), witness(st.pc))
-        for pe, en in zip(popped, enters):
-            okk = en[1] is not None and en[1] == pe[1]
-            res.ob(okk)
-            if not okk:
-                res.finding("delivery|vector", "the vector entered is not the number that was requested (redirected)", witness(st.pc))
-        if enters:
-            entered_seen = Mx.OR(entered_seen, st.pc)
-        if len(res.samples) < 5:
-            res.samples.append({"effects": kinds, "outcome": o.kind, "path_condition": Mx.to_expr(Mx.exists(st.pc, set(r for r in Mx.support(st.pc) if 100 <= r < 2000)))[:120]})
-    if total != 1:
-        res.errors.append("traces of try_interrupt do not cover all states")
-    # with I set there must be a trace (nothing popped); with I clear requests are taken
-    res.ob(Mx.AND(ibit, Mx.NOT(masked_seen)) == 0)
-    res.ob(entered_seen != 0)
-    if entered_seen == 0:
-        res.finding("delivery|never", "no trace of try_interrupt enters an interrupt")
-    res.distinct = len(outs)
     # ---- (2) who-may-call
     cg = cfgmod.CallGraph(facts)
     k_run = facts.body("cpu::Cpu::run")["key"]
@@ -145,15 +471,16 @@ def run(ctx, res):
     res.ob(okk)
     if not okk:
         res.finding("boundary|order", "in run, try_interrupt does not dominate fetch which dominates exec (blocks %r %r %r)" % (bt, bf, be))
-    # ---- (3) queue discipline
+    # ---- (3) queue discipline: every body that touches the controller's state is one the model above interpreted
+    IC_FIELDS = set(facts.struct_fields(IC))
     touch = {}
     for key, b in facts.bodies.items():
         for bl in b["blocks"]:
             places = []
-            for s in bl["st"]:
-                if s["k"] == "assign":
-                    places.append(s["p"])
-                    r = s["r"]
+            for s_ in bl["st"]:
+                if s_["k"] == "assign":
+                    places.append(s_["p"])
+                    r = s_["r"]
                     if "p" in r:
                         places.append(r["p"])
                     for o_ in ([r.get("o")] if r.get("o") else []) + [x for x in (r.get("a"), r.get("b")) if x] + r.get("ops", []):
@@ -165,24 +492,33 @@ def run(ctx, res):
                     if a["k"] in ("copy", "move"):
                         places.append(a["p"])
             for p in places:
-                if any(pr["k"] == "field" and pr["n"] == "interrupt_requests" for pr in p["p"]):
-                    touch.setdefault(key, 0)
-                    touch[key] += 1
-    res.inventory["bodies_touching_queue"] = sorted(touch)
-    allowed = {k_req: "push_back", k_try: "pop_front"}
-    for key in touch:
+                base_ty = facts.types[b["locals"][p["l"]]["ty"]]
+                cur = base_ty
+                for pr in p["p"]:
+                    if pr["k"] == "deref":
+                        cur = facts.types[cur["to"]] if cur.get("to") is not None else cur
+                    elif pr["k"] == "field":
+                        if cur.get("k") == "adt" and cur.get("path") == IC:
+                            touch.setdefault(key, set()).add(pr["n"])
+                        cur = facts.types[pr["ty"]] if pr.get("ty") is not None else {}
+                    else:
+                        cur = {}
+    res.inventory["bodies_touching_controller_state"] = {k: sorted(v) for k, v in sorted(touch.items())}
+    for key in sorted(touch):
         if key.endswith("InterruptController::new") or "as std::clone::Clone" in key:
             continue
-        res.ob(key in allowed)
-        if key not in allowed:
-            res.finding("queue|touched-by|%s" % key, "%s accesses the request queue (only request_interrupt and try_interrupt may)" % key)
+        inside = key in analysed
+        if inside:
+            res.ob(True)
             continue
-        # the only VecDeque method called there is the allowed one
         meths = sorted(set(p.split("::")[-1] for i, p, t in cfgmod.Cfg(facts.bodies[key]).calls() if "VecDeque" in p))
-        res.ob(meths == [allowed[key]])
-        if meths != [allowed[key]]:
-            res.finding("queue|methods|%s" % key.split("::")[-1], "%s calls %r on the request queue (expected only %s)" % (key.split("::")[-1], meths, allowed[key]))
-    res.floor("bodies touching the request queue", len(touch), 2)
+        bad = [m for m in meths if m not in FIFO_OK]
+        res.ob(False)
+        if bad:
+            res.finding("queue|touched-by|%s" % key, "%s applies %r to the request queue outside request_interrupt / try_interrupt (requests can be lost or reordered)" % (key, bad))
+        else:
+            res.errors.append("%s accesses the interrupt controller's state (%s) but is not part of the analysed request / delivery paths: not decidable by this rule" % (key, sorted(touch[key])))
+    res.floor("bodies touching the controller state", len(touch), 2)
     # ---- (4) requesters
     nreq = 0
     for key, b in facts.bodies.items():
